@@ -312,7 +312,8 @@ Example C01_sites_nonvacuous :
 Proof. repeat split; vm_compute; reflexivity. Qed.
 
 (* the Enum tie is not vacuous: a declared subset of a class; the name of an excluded member is rejected,
-   a declared name is converted, a foreign class's member is rejected, an unhashable value is a TypeError *)
+   a declared name is converted, a foreign class's member is rejected, an unhashable value is rejected with the
+   field's own ValueError (it is never hashed) *)
 Definition ex_color_all : list (pystr * pyval) :=
   [(s2p "RED", PNum (NInt 1)); (s2p "GREEN", PNum (NInt 2)); (s2p "BLUE", PStr (s2p "b"))].
 Definition ex_color_sub : list (pystr * pyval) := [(s2p "RED", PNum (NInt 1)); (s2p "GREEN", PNum (NInt 2))].
@@ -326,7 +327,7 @@ Example C01_src_Enum_nonvacuous :
             (PEnum (s2p "Color") (s2p "BLUE") (PStr (s2p "b"))) = Raise ValueError /\
   Enum__set (fun _ _ => true) (enum_cls_self (s2p "Color") ex_color_all ex_color_sub)
             (PEnum (s2p "Size") (s2p "RED") (PNum (NInt 1))) = Raise ValueError /\
-  Enum__set (fun _ _ => true) (enum_cls_self (s2p "Color") ex_color_all ex_color_sub) (PList []) = Raise TypeError /\
+  Enum__set (fun _ _ => true) (enum_cls_self (s2p "Color") ex_color_all ex_color_sub) (PList []) = Raise ValueError /\
   Enum__set (fun _ _ => true) (enum_lit_self [PNum (NInt 1); PStr (s2p "a")]) (PBool true) = Ok (PBool true) /\
   Enum__set (fun _ _ => true) (enum_lit_self [PNum (NInt 1); PStr (s2p "a")]) (PStr (s2p "1")) = Raise ValueError.
 Proof.
